@@ -21,6 +21,7 @@ type HarnessCfg struct {
 	MaxCexPerLabel int
 	Backend        string
 	NoIfConvert    bool
+	LazyFork       bool
 	Workers        int
 	Witnesses      int
 	Fallbacks      []string
@@ -366,6 +367,15 @@ func (w *worker) runPath(res *HarnessResult) {
 		res.Paths++
 		return
 	}
+	if in.cfg.LazyFork {
+		// forks were taken without feasibility checks: decide now whether this path exists at all
+		if r, _ := in.sol.Check(in.pc, nil, nil); r == Unsat {
+			res.DeadPaths++
+			return
+		} else if r == Unknown {
+			res.UnknownFeas++
+		}
+	}
 	res.Paths++
 	for k := range in.reached {
 		res.Reached[k]++
@@ -380,7 +390,7 @@ func (w *worker) runPath(res *HarnessResult) {
 			if r == Sat {
 				tape, obs := in.snapshot(m)
 				res.Panics = append(res.Panics, &Violation{Harness: res.Name, Label: "no-panic", Kind: "panic", Msg: label, Tape: tape, Observes: obs, Path: in.decisionString()})
-			} else {
+			} else if r == Unknown {
 				res.addInconclusive("panic path without model: " + label)
 			}
 		}
